@@ -145,6 +145,7 @@ namespace ratio
                 // we notify that some atoms are starting their execution..
                 for (const auto &l : listeners)
                     l->start(starting_atms->second);
+                started.insert(starting_atms->second.cbegin(), starting_atms->second.cend());
             }
             if (const auto ending_atms = e_atms.find(*pulses.cbegin()); ending_atms != e_atms.cend())
             { // we freeze the 'at' and the 'end' of the ending atoms..
@@ -200,6 +201,7 @@ namespace ratio
                 // we notify that some atoms are ending their execution..
                 for (const auto &l : listeners)
                     l->end(ending_atms->second);
+                ended.insert(ending_atms->second.cbegin(), ending_atms->second.cend());
             }
 
             pulses.erase(pulses.cbegin());
@@ -301,13 +303,14 @@ namespace ratio
                 auto &c_atm = static_cast<atom &>(*atm);
                 if (slv.get_sat_core().value(c_atm.get_sigma()) == True)
                 { // the atom is active..
+                    if (ended.count(&c_atm))
+                        continue; // this atom has already been executed..
                     if (slv.is_impulse(c_atm))
                     {
                         arith_expr at_expr = atm->get(RATIO_AT);
                         inf_rational at = slv.arith_value(at_expr);
-                        if (at < current_time)
-                            continue; // this atom is already in the past..
-                        s_atms[at].insert(&c_atm);
+                        if (!started.count(&c_atm)) // this atom has not been started yet..
+                            s_atms[at].insert(&c_atm);
                         e_atms[at].insert(&c_atm);
                         pulses.insert(at);
                     }
@@ -316,11 +319,9 @@ namespace ratio
                         arith_expr s_expr = atm->get(RATIO_START);
                         arith_expr e_expr = atm->get(RATIO_END);
                         inf_rational end = slv.arith_value(e_expr);
-                        if (end < current_time)
-                            continue; // this atom is already in the past..
-                        inf_rational start = slv.arith_value(s_expr);
-                        if (start >= current_time)
-                        {
+                        if (!started.count(&c_atm))
+                        { // this atom has not been started yet..
+                            inf_rational start = slv.arith_value(s_expr);
                             s_atms[start].insert(&c_atm);
                             pulses.insert(start);
                         }
